@@ -13,6 +13,7 @@ this is complete, not sampling.
 from __future__ import annotations
 
 import sqlite3
+import os
 import time
 
 import z3
@@ -43,6 +44,7 @@ class Run:
         self.events = []
         self.max_values = explorer.max_values
         self.lazy_ints = getattr(explorer, "lazy_ints", True)
+        self.lazy_text = getattr(explorer, "lazy_text", True)
 
     # -- solver ---------------------------------------------------------------------------------
     def assume(self, c):
@@ -92,6 +94,9 @@ class Run:
                 raise Infeasible()
             chosen = 0
         self.decisions.append((kind, options, chosen))
+        if k >= len(self.prefix) and len(options) > 1:
+            h = self.explorer.fork_hist
+            h[desc] = h.get(desc, 0) + len(options) - 1
         val = options[chosen]
         apply(val)
         return val
@@ -168,6 +173,10 @@ class Run:
         if v.k == "t":
             if isinstance(v.v, str):
                 return v.v
+            if self.lazy_text:
+                sv = z3.simplify(v.v)
+                if not z3.is_int_value(sv):
+                    return LazyText(self, v.v, ctx.pool, desc)
             idx = self.decide_term(v.v, desc)
             return ctx.pool.strings[idx]
         if v.k == "i" and is_sym(v.v) and self.lazy_ints:
@@ -279,6 +288,96 @@ class LazyInt:
     __rmul__ = __mul__
 
 
+class LazyText:
+    """A text value (atom of the string pool) that crossed from SQL into Python but has not been
+    looked at yet.  Labels mostly travel through the real code untouched (constructor arguments of
+    node objects, log messages that are never formatted, parameters of the next statement):
+    handing it back to SQL keeps it symbolic; comparing it with a string forks two ways; anything
+    else forces it (all feasible pool strings are enumerated as for any other value)."""
+
+    __slots__ = ("run", "term", "pool", "_val", "desc")
+
+    def __init__(self, run, term, pool, desc=""):
+        self.run = run
+        self.term = term
+        self.pool = pool
+        self._val = None
+        self.desc = desc
+
+    def force(self):
+        if self._val is None:
+            self._val = self.pool.strings[int(self.run.decide_term(self.term, self.desc))]
+        return self._val
+
+    def __eq__(self, o):
+        if self._val is not None:
+            return self._val == (o.force() if isinstance(o, LazyText) else o)
+        if isinstance(o, LazyText):
+            if o._val is None:
+                return self.run.decide_bool(self.term == o.term, f"{self.desc} ==")
+            o = o._val
+        if isinstance(o, str):
+            idx = self.pool.index.get(str(o))
+            if idx is None:
+                return False
+            return self.run.decide_bool(self.term == idx, f"{self.desc} == {o!r}")
+        return False
+
+    def __ne__(self, o):
+        return not self.__eq__(o)
+
+    def __hash__(self):
+        return hash(self.force())
+
+    def __str__(self):
+        return self.force()
+
+    def __repr__(self):
+        return f"LazyText({self._val if self._val is not None else self.term})"
+
+    def __fspath__(self):
+        return self.force()
+
+    def __format__(self, spec):
+        return format(self.force(), spec)
+
+    def __len__(self):
+        return len(self.force())
+
+    def __iter__(self):
+        return iter(self.force())
+
+    def __getitem__(self, k):
+        return self.force()[k]
+
+    def __contains__(self, x):
+        return x in self.force()
+
+    def __add__(self, o):
+        return self.force() + o
+
+    def __radd__(self, o):
+        return o + self.force()
+
+    def __lt__(self, o):
+        return self.force() < str(o)
+
+    def __le__(self, o):
+        return self.force() <= str(o)
+
+    def __gt__(self, o):
+        return self.force() > str(o)
+
+    def __ge__(self, o):
+        return self.force() >= str(o)
+
+    def __getattr__(self, name):
+        # str methods (startswith, endswith, split, ...) act on the forced value
+        if name.startswith("__"):
+            raise AttributeError(name)
+        return getattr(self.force(), name)
+
+
 class LazyRows(list):
     """Result of fetchall(): rows stay symbolic until Python looks at them; handing the list back
     to executemany() inserts the guarded rows without enumerating which of them exist."""
@@ -332,6 +431,7 @@ class SymCursor:
         self.pos = 0
         self._rowcount = None
         self.description = (("col",),) if res.bag is not None else None
+        self.sql_tag = db.log[-1][:48] if db.log else ""
 
     def fetchone(self):
         bag = self.res.bag
@@ -341,8 +441,9 @@ class SymCursor:
         while self.pos < len(bag.rows):
             g, vals = bag.rows[self.pos]
             self.pos += 1
-            if run.decide_bool(g, "row present"):
-                return tuple(run.decide_value(v, self.db.ctx, f"column {i}") for i, v in enumerate(vals))
+            tag = self.sql_tag
+            if run.decide_bool(g, f"row present [{tag}]"):
+                return tuple(run.decide_value(v, self.db.ctx, f"column {i} [{tag}]") for i, v in enumerate(vals))
         return None
 
     def fetchall(self):
@@ -470,11 +571,92 @@ class Explorer:
         self.paths = 0
         self.solver_s = 0.0
         self.n_checks = 0
+        self.fork_hist = {}
 
-    def explore(self, body, on_path):
-        """body(run) -> (db, callable) is re-executed per path; on_path(PathResult) checks it."""
+    def explore(self, body, on_path, workers=1, state=None):
+        """body(run) -> (db, callable) is re-executed per path; on_path(PathResult) checks it.
+
+        With workers > 1 the open prefixes are shared out to forked worker processes once there are
+        enough of them; `state` (mark() / since(mark) / absorb(payload)) carries what on_path
+        recorded in a worker back to this process."""
         stack = [[]]
+        if workers <= 1 or state is None:
+            self._run_stack(stack, body, on_path)
+            return self.paths
+        self._run_stack(stack, body, on_path, stop=lambda st: len(st) >= workers * 3)
+        if not stack:
+            return self.paths
+        import pickle
+        import tempfile
+        import traceback
+
+        shares = [stack[i::workers] for i in range(workers)]
+        children = []
+        for share in shares:
+            if not share:
+                continue
+            fd, path = tempfile.mkstemp(prefix="explore_", suffix=".pkl")
+            os.close(fd)
+            pid = os.fork()
+            if pid == 0:
+                code = 0
+                try:
+                    mark = state.mark()
+                    self.paths, self.solver_s, self.n_checks, self.fork_hist = 0, 0.0, 0, {}
+                    status = ("ok", "")
+                    try:
+                        self._run_stack(list(reversed(share)), body, on_path)
+                    except PathLimit as exc:
+                        status = ("pathlimit", str(exc))
+                    except Unsupported as exc:
+                        status = ("unsupported", str(exc))
+                    payload = (status, self.paths, self.solver_s, self.n_checks, self.fork_hist, state.since(mark))
+                    with open(path, "wb") as fh:
+                        pickle.dump(payload, fh)
+                except BaseException:  # noqa: BLE001
+                    try:
+                        with open(path, "wb") as fh:
+                            pickle.dump((("error", traceback.format_exc()[-2000:]), 0, 0.0, 0, {}, None), fh)
+                    except Exception:  # noqa: BLE001
+                        pass
+                    code = 1
+                finally:
+                    os._exit(code)
+            children.append((pid, path))
+        problems = []
+        for pid, path in children:
+            os.waitpid(pid, 0)
+            try:
+                with open(path, "rb") as fh:
+                    status, paths, solver_s, n_checks, hist, payload = pickle.load(fh)
+            except Exception as exc:  # noqa: BLE001
+                status, paths, solver_s, n_checks, hist, payload = ("error", f"no result from worker: {exc}"), 0, 0.0, 0, {}, None
+            finally:
+                try:
+                    os.unlink(path)
+                except OSError:
+                    pass
+            self.paths += paths
+            self.solver_s += solver_s
+            self.n_checks += n_checks
+            for k, v in hist.items():
+                self.fork_hist[k] = self.fork_hist.get(k, 0) + v
+            if payload is not None:
+                state.absorb(payload)
+            if status[0] != "ok":
+                problems.append(status)
+        for kind, msg in problems:
+            if kind == "pathlimit":
+                raise PathLimit(msg + " (in a worker)")
+            if kind == "unsupported":
+                raise Unsupported(msg)
+            raise RuntimeError(f"exploration worker failed: {msg}")
+        return self.paths
+
+    def _run_stack(self, stack, body, on_path, stop=None):
         while stack:
+            if stop is not None and stop(stack):
+                return
             prefix = stack.pop()
             if self.paths >= self.max_paths:
                 raise PathLimit(f"more than {self.max_paths} paths")
@@ -503,7 +685,6 @@ class Explorer:
                 kind, options, chosen = run.decisions[k]
                 for alt in range(len(options) - 1, chosen, -1):
                     stack.append([(d[0], d[1], d[2]) for d in run.decisions[:k]] + [(kind, options, alt)])
-        return self.paths
 
 
 def drive(coro):
